@@ -40,10 +40,11 @@ RULE = ('cases = histories of 1-10 edits (add_fp / add_directory / add_hard_link
         'of the whole history.')
 ASSUMPTIONS = [
     'vf/legal.py encodes exactly the rules listed in the C13 statement; points the statement is silent on '
-    '(empty version, "+1" spellings, RR names longer than one NM field, file in a level-8 directory, long ISO '
-    'identifiers on Rock Ridge images) accept both a clean refusal and a clean acceptance',
+    '(empty version, "+1" spellings, RR names longer than one NM field, file in a level-8 directory) accept both a clean refusal and a clean acceptance',
     'every generated edit touches one namespace only (ISO+RR count as one call), so a refusal cannot leave another '
     'namespace half-edited (that is C14); the write after a refusal is measured, not judged',
+    'on a Rock Ridge image a directory record must hold at least the 28-byte SUSP CE entry besides the identifier, so '
+    'ISO identifiers longer than 193 bytes do not fit there (221 without Rock Ridge)',
     'UDF directories are listed through list_children(udf_path=...) of the reopened image (no independent UDF '
     'reader in this check); ISO9660, Rock Ridge NM and Joliet directories are listed by an independent struct scan',
     'two different versions of one name (X.;1 and X.;2) are different identifiers',
@@ -230,11 +231,9 @@ class Model:
         verdicts = []
         if ns == 'iso':
             b = name.encode('utf-8')
-            # Interpretation: with Rock Ridge the record also carries system use the
-            # library sizes itself; long identifiers are left undecided there.
-            v = legal.legal_iso_dir(b, self.level) if kind == 'dir' else legal.legal_iso_file(b, self.level)
-            if v[0] is True and self.rr and len(b) > 100:
-                v = (None, 'silent:long-identifier-with-rock-ridge')
+            # with Rock Ridge the record must at least hold the 28-byte CE entry
+            su = legal.RR_MIN_SYSTEM_USE if self.rr else 0
+            v = legal.legal_iso_dir(b, self.level, su) if kind == 'dir' else legal.legal_iso_file(b, self.level, su)
             verdicts.append(v)
             verdicts.append(legal.depth_ok(len(comps), self.level, self.rr, is_dir=(kind == 'dir')))
             if self.rr:
